@@ -48,6 +48,7 @@ structure St where
   evs : List PEv := []
   err : Val := .nil
   succ : Bool := false
+  acceptVar : Bool := false          -- the local `accept` of loggedThrottle.doReq's closure
   cwWraps : Bool := false            -- `cw` is the code-recording wrapper of `w`
   cwSeesNext : Bool := false         -- `next` was served with `cw`: `cw.Code` is what the handler wrote
   lastPassSets : Nat := 0            -- accept(): how often `b.lastPass.Set(timex.Now())` ran
@@ -89,7 +90,15 @@ def St.stick (s : St) : St := { s with stuck := true }
 def St.emit (s : St) (e : PEv) : St := { s with evs := s.evs ++ [e] }
 
 /-- calls that have no effect on the breaker's accounting (metrics, logging) -/
-def effectFree (f : String) : Bool := f = "metrics.AddDrop" || f = "logc.Errorf"
+def effectFree (f : String) : Bool :=
+  f = "metrics.AddDrop" || f = "logc.Errorf" || f = "lt.errWin.add" || f = "p.errWin.add" || f = "stat.Report"
+
+/-- is the value of `err` a non-nil error (`.req`: the request's own result, nil iff it returned nil) -/
+def errNonNil (env : Env) (s : St) : Bool :=
+  match s.err with
+  | .nil => false
+  | .unavailable => true
+  | .req => env.outcome.ret ≠ .nil
 
 /-- the mark a call records, if it is one of the markers (or the window's `Add` behind them) -/
 def markOfCall (f : String) (args : List String) : Option Mark :=
@@ -112,7 +121,13 @@ def callSem (env : Env) (s : St) (lhs : List String) (f : String) (args : List S
     if lhs = ["err"] ∧ args = [] then
       { env.acceptMarks.foldl (fun s m => s.emit (.mark m)) s with err := if env.verdict = .reject then .unavailable else .nil }
     else s.stick
-  else if f = "brk.Allow" then
+  else if f = "acceptable" then
+    -- the predicate handed in, applied to the request's result
+    if lhs = ["accept"] ∧ args = ["err"] ∧ s.err = .req then { s with acceptVar := acceptable env.custom env.outcome }
+    else s.stick
+  else if f = "p.promise.Accept" ∧ lhs = [] ∧ args = [] then s.emit (.mark .succ)
+  else if f = "p.promise.Reject" ∧ lhs = [] ∧ args = [] then s.emit (.mark .fail)
+  else if f = "brk.Allow" ∨ f = "lt.internalThrottle.allow" then
     -- the public entry point: `allow()` behind it has already recorded what `allowEvents` says (a drop when rejected;
     -- `progAllow` is tied to `allowEvents` by `tie_progAllow`)
     if lhs = ["promise", "err"] ∧ args = [] then
@@ -142,7 +157,10 @@ def callSem (env : Env) (s : St) (lhs : List String) (f : String) (args : List S
 
 /-- meaning of a condition; `none` = the interpreter does not know it -/
 def condSem (env : Env) (s : St) (c : String) : Option Bool :=
-  if c = "err != nil" then some (s.err ≠ .nil)
+  if c = "err != nil" then some (errNonNil env s)
+  else if c = "!accept && err != nil" then some (!s.acceptVar && errNonNil env s)
+  else if c = "errors.Is(err, ErrServiceUnavailable)" then
+    some (s.err = .unavailable || (s.err = .req && (env.outcome = .brk || env.outcome = .wbrk)))
   else if c = "fallback != nil" then some env.hasFallback
   else if c = "succ" then some s.succ
   else if c = "acceptable(err)" then (if s.err = .req then some (acceptable env.custom env.outcome) else none)
@@ -195,8 +213,8 @@ def runDefer (env : Env) (s : St) (body : List Tok) : St :=
   if s'.ending.isSome ∨ ¬ s'.defers.isEmpty then s'.stick else { s' with ending := s.ending }
 
 /-- the whole function: body, then the deferred bodies last-in-first-out (`defers` is kept newest first) -/
-def run (env : Env) (prog : List Tok) : St :=
-  let s := exec env (prog.length + 1) prog {}
+def run (env : Env) (prog : List Tok) (s0 : St := {}) : St :=
+  let s := exec env (prog.length + 1) prog s0
   s.defers.foldl (runDefer env) { s with defers := [] }
 
 /-! ### reading the result as the model's event lists -/
@@ -242,6 +260,39 @@ def runAccept (prog : List Tok) (throttled forced drawLess : Bool) : Option (Ver
   match s.ending with
   | some (.returned ["nil"]) => some (.pass, s.lastPassSets, s.draws)
   | some (.returned ["ErrServiceUnavailable"]) => some (.reject, s.lastPassSets, s.draws)
+  | _ => none
+
+/-- the closure `loggedThrottle.doReq` hands to the inner `doReq` in place of `acceptable`: called with the request's
+result, it must answer what `acceptable` answers (its logging has no effect on the accounting) -/
+def runClosure (prog : List Tok) (custom : Bool) (o : Outcome) : Option Bool :=
+  let env : Env := { verdict := .pass, hasFallback := false, custom := custom, outcome := o, nextUnwinds := false,
+                     acceptIfSeen := false }
+  let s := run env prog { err := .req }
+  if s.stuck ∨ ¬ s.evs.isEmpty then none else
+  match s.ending with
+  | some (.returned ["accept"]) => some s.acceptVar
+  | _ => none
+
+/-- `logError(err) error`: what it returns for an argument `errv` (nothing may be recorded) -/
+def runLogError (prog : List Tok) (errv : Val) (o : Outcome) : Option Val :=
+  let env : Env := { verdict := .pass, hasFallback := false, custom := false, outcome := o, nextUnwinds := false,
+                     acceptIfSeen := false }
+  let s := run env prog { err := errv }
+  if s.stuck ∨ ¬ s.evs.isEmpty then none else
+  match s.ending with
+  | some (.returned ["err"]) => some s.err
+  | _ => none
+
+/-- the marks a (return-less) wrapper body records and the values it returns, on a given verdict -/
+def runWrapper (acc prog : List Tok) (v : Verdict) : Option (List Mark × List String) :=
+  let env : Env := { verdict := v, hasFallback := false, custom := false, outcome := .ok, nextUnwinds := false,
+                     acceptIfSeen := false, acceptMarks := marksIn acc }
+  let s := run env prog
+  if s.stuck then none else
+  let ms := s.evs.filterMap fun | .mark m => some m | _ => none
+  match s.ending with
+  | none => some (ms, [])
+  | some (.returned vals) => some (ms, vals)
   | _ => none
 
 def sevOf : PEv → Option SEv
